@@ -1,6 +1,7 @@
 (* C11 — Each layer reader behaves like a plain seekable byte stream.
    Only statements, `exact`, `Check` pins, `Print Assumptions` and non-vacuity examples. *)
 From MLA Require Import Base Stream EncLayer EncLayerProofs SrcTie Inst.
+From MLA Require Import CompLayer CompLayerProofs CompWriterProofs RawLayer RawLayerProofs LayerStack.
 From MLAGen Require Src.
 Open Scope N_scope.
 
@@ -90,3 +91,243 @@ Print Assumptions C11_end_found_for_every_length.
 Print Assumptions C11_position_roundtrip.
 Print Assumptions C11_enc_over_cursor_prod.
 Print Assumptions C11_enc_over_cursor_verif.
+
+(* ================= compression layer ================= *)
+
+(* Over ANY inner stream that behaves as a cursor over the wire form
+   [compressed blocks][SizesInfo][length] of ANY list of compressed blocks whose j-th element
+   decompresses to the j-th BLOCK-slice of `plain` (all blocks full but the last; also no block
+   at all for the empty stream, or an empty trailing block), the reader behaves as a cursor
+   over `plain`: reads of any size, seeks from start / current / end to every position of
+   [0, |plain|].  Brotli enters only through `dec`. *)
+Theorem C11_comp_reader_refines_any_blocks :
+  forall BLOCK LIMIT : N, 0 < BLOCK -> BLOCK < 2 ^ 32 ->
+  forall (dec : bytes -> bytes) (S : Stream) (plain : bytes) (cbs : list (list N)),
+    (len cbs - 1) * BLOCK <= len plain <= len cbs * BLOCK ->
+    (forall (j : N) (cb : list N), nthN cbs j = Some cb -> dec cb = block_at BLOCK plain j) ->
+    12 + 4 * len cbs <= LIMIT /\ 12 + 4 * len cbs < 2 ^ 32 ->
+    len plain < 2 ^ 63 ->
+  forall Rin : st S -> N -> Prop,
+    Refines S (comp_wire cbs (len plain - (len cbs - 1) * BLOCK)) Rin ->
+    Refines (CompReader BLOCK dec S) plain (Rcomp BLOCK S plain cbs Rin).
+Proof. exact comp_reader_refines_gen. Qed.
+
+(* the canonical format: what the writer leaves for `plain` with a compressor `comp` such that
+   dec (comp x) = x *)
+Theorem C11_comp_reader_refines :
+  forall BLOCK LIMIT : N, 0 < BLOCK -> BLOCK < 2 ^ 32 ->
+  forall comp dec : bytes -> bytes, (forall x : bytes, dec (comp x) = x) ->
+  forall (S : Stream) (plain : bytes),
+    12 + 4 * nblocks BLOCK (len plain) <= LIMIT /\ 12 + 4 * nblocks BLOCK (len plain) < 2 ^ 32 ->
+    len plain < 2 ^ 63 ->
+  forall Rin : st S -> N -> Prop,
+    Refines S (comp_format BLOCK comp plain) Rin ->
+    Refines (CompReader BLOCK dec S) plain (Rcompn BLOCK comp S plain (nblocks BLOCK (len plain)) Rin).
+Proof. exact comp_reader_refines. Qed.
+
+(* new + initialize (footer parsed back from the wire) establish the invariant at position 0 *)
+Theorem C11_comp_open :
+  forall BLOCK LIMIT : N, 0 < BLOCK -> BLOCK < 2 ^ 32 ->
+  forall comp dec : bytes -> bytes, (forall x : bytes, dec (comp x) = x) ->
+  forall (S : Stream) (plain : bytes),
+    (forall j : N, j < nblocks BLOCK (len plain) -> len (comp (block_at BLOCK plain j)) < 2 ^ 32) ->
+    12 + 4 * nblocks BLOCK (len plain) <= LIMIT /\ 12 + 4 * nblocks BLOCK (len plain) < 2 ^ 32 ->
+    len plain < 2 ^ 63 ->
+  forall Rin : st S -> N -> Prop,
+    Refines S (comp_format BLOCK comp plain) Rin ->
+  forall (inner_init : st S -> st S * res unit) (i0 i1 i2 : st S),
+    sk S i0 (FromCur 0) = (i1, Ok 0) -> inner_init i1 = (i2, Ok tt) -> (exists pin : N, Rin i2 pin) ->
+    exists c : creader S,
+      comp_open LIMIT S inner_init i0 = (c, Ok tt) /\
+      Rcompn BLOCK comp S plain (nblocks BLOCK (len plain)) Rin c 0.
+Proof. exact comp_open_spec. Qed.
+
+(* "the end of the stream is found correctly whatever its length": seek(End(0)) returns
+   |plain| from every reachable state — |plain| = 0 and multiples of BLOCK included *)
+Theorem C11_comp_end_found_for_every_length :
+  forall BLOCK LIMIT : N, 0 < BLOCK -> BLOCK < 2 ^ 32 ->
+  forall comp dec : bytes -> bytes, (forall x : bytes, dec (comp x) = x) ->
+  forall (S : Stream) (plain : bytes),
+    12 + 4 * nblocks BLOCK (len plain) <= LIMIT /\ 12 + 4 * nblocks BLOCK (len plain) < 2 ^ 32 ->
+    len plain < 2 ^ 63 ->
+  forall Rin : st S -> N -> Prop,
+    Refines S (comp_format BLOCK comp plain) Rin ->
+  forall (c : creader S) (p : N),
+    Rcompn BLOCK comp S plain (nblocks BLOCK (len plain)) Rin c p ->
+    exists c' : creader S,
+      cseek BLOCK dec S c (FromEnd 0) = (c', Ok (len plain)) /\
+      Rcompn BLOCK comp S plain (nblocks BLOCK (len plain)) Rin c' (len plain).
+Proof. exact comp_seek_end_canonical. Qed.
+
+(* the three SizesInfo methods as translated from the source (Tie A) are the model's *)
+Theorem C11_sizes_info_kernels :
+  forall BLOCK sizes last,
+    (forall b, Src.si_uncompressed_block_size_at BLOCK sizes last b = Ok (si_ubs BLOCK (mkSI sizes last) b)) /\
+    (forall p, Src.si_compressed_block_size_at BLOCK sizes p = si_cbs BLOCK (mkSI sizes last) p) /\
+    Src.si_max_uncompressed_pos BLOCK sizes last = Ok (si_max BLOCK (mkSI sizes last)).
+Proof. exact sizes_info_kernels_eq. Qed.
+
+(* the writer is canonical: any pieces handed to write_all, then finalize, leave
+   comp_format (concatenation) in the inner layer *)
+Theorem C11_comp_writer_canonical :
+  forall BLOCK : N, 0 < BLOCK -> BLOCK < 2 ^ 32 ->
+  forall (comp : bytes -> bytes) (pieces : list (list N)),
+    12 + 4 * nblocks BLOCK (len (concat pieces)) < 2 ^ 32 ->
+    exists w1 w2 : cwriter,
+      cw_write_pieces BLOCK comp cw_init pieces = (w1, Ok tt) /\
+      cw_finalize comp w1 = (w2, Ok tt) /\
+      cw_out w2 = comp_format BLOCK comp (concat pieces).
+Proof. exact comp_writer_canonical. Qed.
+
+(* write then read, at the constants of the source (both flavours): whatever the pieces, the
+   reader opened on what the writer produced behaves as a cursor over their concatenation *)
+Theorem C11_comp_write_read_prod :
+  forall comp dec : bytes -> bytes, (forall x : bytes, dec (comp x) = x) ->
+  forall pieces : list (list N),
+    let B := Src.UNCOMPRESSED_DATA_SIZE_prod in
+    let LIMIT := Src.BINCODE_MAX_DESERIALIZE_prod in
+    let plain := concat pieces in
+    let nb := nblocks B (len plain) in
+    (forall j : N, j < nb -> len (comp (block_at B plain j)) < 2 ^ 32) ->
+    12 + 4 * nb <= LIMIT /\ 12 + 4 * nb < 2 ^ 32 -> len plain < 2 ^ 63 ->
+    exists w1 w2 : cwriter,
+      cw_write_pieces B comp cw_init pieces = (w1, Ok tt) /\ cw_finalize comp w1 = (w2, Ok tt) /\
+      exists R, Refines (CompReader B dec (Cursor (cw_out w2))) plain R /\
+        exists c, comp_open LIMIT (Cursor (cw_out w2)) (fun i => (i, Ok tt)) 0 = (c, Ok tt) /\ R c 0.
+Proof.
+  intros comp dec Hc pieces.
+  destruct consts_ok_prod as (_ & _ & _ & _ & H5 & _ & _ & H8).
+  exact (comp_write_read_roundtrip _ H5 H8 comp dec Hc _ pieces).
+Qed.
+
+Theorem C11_comp_write_read_verif :
+  forall comp dec : bytes -> bytes, (forall x : bytes, dec (comp x) = x) ->
+  forall pieces : list (list N),
+    let B := Src.UNCOMPRESSED_DATA_SIZE_verif in
+    let LIMIT := Src.BINCODE_MAX_DESERIALIZE_verif in
+    let plain := concat pieces in
+    let nb := nblocks B (len plain) in
+    (forall j : N, j < nb -> len (comp (block_at B plain j)) < 2 ^ 32) ->
+    12 + 4 * nb <= LIMIT /\ 12 + 4 * nb < 2 ^ 32 -> len plain < 2 ^ 63 ->
+    exists w1 w2 : cwriter,
+      cw_write_pieces B comp cw_init pieces = (w1, Ok tt) /\ cw_finalize comp w1 = (w2, Ok tt) /\
+      exists R, Refines (CompReader B dec (Cursor (cw_out w2))) plain R /\
+        exists c, comp_open LIMIT (Cursor (cw_out w2)) (fun i => (i, Ok tt)) 0 = (c, Ok tt) /\ R c 0.
+Proof.
+  intros comp dec Hc pieces.
+  destruct consts_ok_verif as (_ & _ & _ & _ & H5 & _ & _ & H8).
+  exact (comp_write_read_roundtrip _ H5 H8 comp dec Hc _ pieces).
+Qed.
+
+(* ================= raw layer ================= *)
+
+(* with offset_pos = |header|, over any inner stream behaving as a cursor over header ++ body *)
+Theorem C11_raw_reader_refines :
+  forall (S : Stream) (header body : bytes) (Rin : st S -> N -> Prop),
+    Refines S (header ++ body) Rin -> len (header ++ body) < 2 ^ 64 ->
+    Refines (RawReader S) body (Rraw S header body Rin).
+Proof. exact raw_reader_refines. Qed.
+
+Theorem C11_raw_open :
+  forall (S : Stream) (header body : bytes) (Rin : st S -> N -> Prop),
+    Refines S (header ++ body) Rin -> len (header ++ body) < 2 ^ 64 ->
+  forall i0 : st S, Rin i0 (len header) ->
+    exists s : rstate S, raw_open S i0 = (s, Ok tt) /\ Rraw S header body Rin s 0.
+Proof. exact raw_open_spec. Qed.
+
+(* ================= stacking ================= *)
+
+(* compression over encryption over raw over any source behaving as a cursor over
+   header ++ enc(comp(plain)) behaves as a cursor over plain *)
+Theorem C11_stack_refines :
+  forall CHUNK TAG BLOCK LIMIT : N, 0 < CHUNK -> 0 < TAG -> 0 < BLOCK -> BLOCK < 2 ^ 32 ->
+  forall (ks : N -> N -> N) (tagc : N -> bytes -> bytes), (forall (i : N) (c : bytes), len (tagc i c) = TAG) ->
+  forall comp dec : bytes -> bytes, (forall x : bytes, dec (comp x) = x) ->
+  forall (header plain : bytes) (nb : N),
+    (nb - 1) * BLOCK <= len plain <= nb * BLOCK ->
+    12 + 4 * nb <= LIMIT /\ 12 + 4 * nb < 2 ^ 32 ->
+    len plain < 2 ^ 63 ->
+    nfull CHUNK (len (compwire BLOCK comp plain nb)) + 2 < 2 ^ 32 ->
+    len (archive CHUNK BLOCK ks tagc comp header plain nb) < 2 ^ 64 ->
+  forall (S : Stream) (Rin : st S -> N -> Prop),
+    Refines S (archive CHUNK BLOCK ks tagc comp header plain nb) Rin ->
+    Refines (CompS CHUNK TAG BLOCK ks tagc dec S) plain
+      (Rcomp0 CHUNK TAG BLOCK ks tagc comp header plain nb S Rin).
+Proof. exact stack_refines. Qed.
+
+(* opening the stack in the order of ArchiveReader::from_config *)
+Theorem C11_stack_open :
+  forall CHUNK TAG BLOCK LIMIT : N, 0 < CHUNK -> 0 < TAG -> 0 < BLOCK -> BLOCK < 2 ^ 32 ->
+  forall (ks : N -> N -> N) (tagc : N -> bytes -> bytes), (forall (i : N) (c : bytes), len (tagc i c) = TAG) ->
+  forall comp dec : bytes -> bytes, (forall x : bytes, dec (comp x) = x) ->
+  forall (header plain : bytes) (nb : N),
+    (nb - 1) * BLOCK <= len plain <= nb * BLOCK ->
+    (forall j : N, j < nb -> len (comp (block_at BLOCK plain j)) < 2 ^ 32) ->
+    12 + 4 * nb <= LIMIT /\ 12 + 4 * nb < 2 ^ 32 ->
+    len plain < 2 ^ 63 ->
+    nfull CHUNK (len (compwire BLOCK comp plain nb)) + 2 < 2 ^ 32 ->
+    len (archive CHUNK BLOCK ks tagc comp header plain nb) < 2 ^ 64 ->
+  forall (S : Stream) (Rin : st S -> N -> Prop),
+    Refines S (archive CHUNK BLOCK ks tagc comp header plain nb) Rin ->
+  forall i0 : st S, Rin i0 (len header) ->
+    exists (r : rstate S) (c : creader (EncS CHUNK TAG ks tagc S)),
+      raw_open S i0 = (r, Ok tt) /\
+      comp_open LIMIT (EncS CHUNK TAG ks tagc S) (enc_initialize CHUNK TAG ks tagc S)
+        (@mkE (RawS S) r [] 0 0) = (c, Ok tt) /\
+      Rcomp0 CHUNK TAG BLOCK ks tagc comp header plain nb S Rin c 0.
+Proof. exact stack_open. Qed.
+
+(* non-vacuity: the toy compressor meets dec (comp x) = x; a concrete 2.5-block stream (BLOCK of
+   the scaled flavour) over an in-memory cursor opens, finds its end at 640, and a read across
+   the first block boundary returns the plaintext bytes; a 2-block stream (length a multiple of
+   BLOCK) finds its end at 512 and reads 0 bytes there *)
+Example C11_comp_hyps_satisfiable :
+  (forall x, toy_dec (toy_comp x) = x) /\
+  let B := Src.UNCOMPRESSED_DATA_SIZE_verif in
+  let run (plain : bytes) :=
+    let wire := comp_format B toy_comp plain in
+    let T := CompReader B toy_dec (Cursor wire) in
+    match comp_open Src.BINCODE_MAX_DESERIALIZE_prod (Cursor wire) (fun i => (i, Ok tt)) 0 with
+    | (c, Ok _) =>
+      let '(c1, e) := sk T c (FromEnd 0) in
+      let '(c2, z) := rd T c1 10 in
+      let '(c3, _) := sk T c2 (FromStart 250) in
+      let '(_, d) := read_full T 21 c3 20 in
+      (e, z, d)
+    | _ => (Err EIo, Err EIo, Err EIo)
+    end in
+  let p640 := map (fun i => N.of_nat i mod 251) (seq 0 640) in
+  let p512 := map (fun i => N.of_nat i mod 251) (seq 0 512) in
+  run p640 = (Ok 640, Ok [], Ok (sliceN 250 20 p640)) /\
+  run p512 = (Ok 512, Ok [], Ok (sliceN 250 20 p512)) /\
+  run [] = (Ok 0, Ok [], Ok []) /\
+  12 + 4 * nblocks B 640 <= Src.BINCODE_MAX_DESERIALIZE_prod /\ 12 + 4 * nblocks B 640 < 2 ^ 32.
+Proof.
+  split; [exact toy_dec_comp|]. cbv zeta. repeat split; vm_compute; try reflexivity; discriminate.
+Qed.
+
+(* non-vacuity of the writer theorem: three cuts of the same 600 bytes give the same wire *)
+Example C11_writer_cuts_agree :
+  let B := Src.UNCOMPRESSED_DATA_SIZE_verif in
+  let p := map (fun i => N.of_nat i mod 251) (seq 0 600) in
+  let out pieces := match cw_write_pieces B toy_comp cw_init pieces with
+                    | (w, Ok _) => match cw_finalize toy_comp w with (w2, Ok _) => cw_out w2 | _ => [] end
+                    | _ => [] end in
+  out [p] = comp_format B toy_comp p /\
+  out [takeN 256 p; dropN 256 p] = comp_format B toy_comp p /\
+  out [takeN 1 p; sliceN 1 299 p; []; dropN 300 p] = comp_format B toy_comp p /\
+  12 + 4 * nblocks B (len p) < 2 ^ 32.
+Proof. cbv zeta. repeat split; vm_compute; reflexivity. Qed.
+
+Print Assumptions C11_comp_reader_refines_any_blocks.
+Print Assumptions C11_comp_reader_refines.
+Print Assumptions C11_comp_open.
+Print Assumptions C11_comp_end_found_for_every_length.
+Print Assumptions C11_sizes_info_kernels.
+Print Assumptions C11_comp_writer_canonical.
+Print Assumptions C11_comp_write_read_prod.
+Print Assumptions C11_comp_write_read_verif.
+Print Assumptions C11_raw_reader_refines.
+Print Assumptions C11_raw_open.
+Print Assumptions C11_stack_refines.
+Print Assumptions C11_stack_open.
